@@ -803,6 +803,104 @@ func ruleD6(w *world.World, r *report.RuleResult) {
 			}
 		}
 	}
+	// (j) the new state file goes into a directory of its own: the number its name is formatted from
+	// comes from the clock of this attempt, never from the time recorded in the current manifest -
+	// otherwise the attempt truncates and rewrites the last good snapshot in place, and a crash or a
+	// failed write leaves the manifest naming a partial file
+	{
+		var mayBeManifest func(v ssa.Value, seen map[ssa.Value]bool) bool
+		mayBeManifest = func(v ssa.Value, seen map[ssa.Value]bool) bool {
+			if v == nil || seen[v] {
+				return false
+			}
+			seen[v] = true
+			switch x := v.(type) {
+			case *ssa.Phi:
+				for _, e := range x.Edges {
+					if mayBeManifest(e, seen) {
+						return true
+					}
+				}
+			case *ssa.Convert:
+				return mayBeManifest(x.X, seen)
+			case *ssa.ChangeType:
+				return mayBeManifest(x.X, seen)
+			case *ssa.Field:
+				return world.TypeIs(x.X.Type(), "internal/snapshot", "Manifest")
+			case *ssa.UnOp:
+				if x.Op != token.MUL {
+					return false
+				}
+				switch a := x.X.(type) {
+				case *ssa.FieldAddr:
+					return world.TypeIs(a.X.Type(), "internal/snapshot", "Manifest")
+				case *ssa.Alloc:
+					for _, ref := range *a.Referrers() {
+						if st, ok := ref.(*ssa.Store); ok && st.Addr == ssa.Value(a) && mayBeManifest(st.Val, seen) {
+							return true
+						}
+					}
+				}
+			case *ssa.BinOp:
+				// manifest time + 1 (or any strictly positive constant) is a fresh name
+				if x.Op == token.ADD {
+					if k, ok := world.ConstInt(x.Y); ok && k > 0 {
+						return false
+					}
+				}
+				return mayBeManifest(x.X, seen) || mayBeManifest(x.Y, seen)
+			}
+			return false
+		}
+		n := 0
+		for _, fn := range append([]*ssa.Function{ts}, ts.AnonFuncs...) {
+			for _, cl := range world.Calls(fn) {
+				call, ok := cl.(*ssa.Call)
+				if !ok {
+					continue
+				}
+				f := call.Call.StaticCallee()
+				if f == nil {
+					continue
+				}
+				var nums []ssa.Value
+				switch n := f.String(); {
+				case n == "fmt.Sprintf" || n == "fmt.Sprint":
+					// variadic: the numbers stored into the argument array
+					for _, a := range call.Call.Args {
+						if sl, ok := a.(*ssa.Slice); ok {
+							if al, ok := sl.X.(*ssa.Alloc); ok {
+								for _, ref := range *al.Referrers() {
+									if ia, ok := ref.(*ssa.IndexAddr); ok {
+										for _, r2 := range *ia.Referrers() {
+											if st, ok := r2.(*ssa.Store); ok {
+												if mi, ok := st.Val.(*ssa.MakeInterface); ok {
+													if b, ok := mi.X.Type().Underlying().(*types.Basic); ok && b.Info()&types.IsInteger != 0 {
+														nums = append(nums, mi.X)
+													}
+												}
+											}
+										}
+									}
+								}
+							}
+						}
+					}
+				case strings.HasPrefix(n, "strconv.Format") || n == "strconv.Itoa":
+					nums = append(nums, call.Call.Args[0])
+				}
+				for _, x := range nums {
+					n++
+					key := fmt.Sprintf("%s|j:fresh-snapshot-directory#%d", fname, n)
+					if mayBeManifest(x, map[ssa.Value]bool{}) {
+						r.Fail(key, w.InstrPos(call), "the number the new snapshot's directory is named after can be the time recorded in the current manifest: the attempt then opens the last good snapshot's state file with O_TRUNC and rewrites it in place - a crash or a failed write leaves the manifest naming an empty or partial file, and a failure at the manifest stage has already replaced the previous snapshot although the attempt reports an error")
+					} else {
+						r.OK(key, w.InstrPos(call), "the snapshot directory is named after this attempt's own time")
+					}
+				}
+			}
+		}
+	}
 	var wm, wst, rm, rst []string
 	c.paths(ts, 0, &wm, &wst)
 	c.paths(rs, 0, &rm, &rst)
